@@ -2,11 +2,13 @@ import Tibc.Generated.Facts
 /-
   C20: the state machine takes time from the block header only and uses no random source and
   nothing of the process environment. The extractor lists every reference to the host clock
-  (`time.Now/Since/Until`), to `math/rand` / `crypto/rand` and to `os.Getenv & co.` in the non-test
+  (`time.Now/Since/Until`), to `math/rand` / `crypto/rand`, to `os.Getenv & co.` and to temporary /
+  per-user directories (`os.TempDir`, `ioutil.TempDir`, …) in the non-test
   files of `modules/tibc` (CLI, simulation and test helpers excluded). On the current tree all of
   them sit in the ethash port taken over from go-ethereum (progress logging while the
   verification cache is generated, temporary file names, and the miner, which the light client
-  never runs). A new reference anywhere — e.g. `time.Now()` in a header check — changes the list and
+  never runs), plus the fresh temporary directory `verifyCascadingFields` creates for the ethash cache
+  of one seal check and removes afterwards. A new reference anywhere — e.g. `time.Now()` in a header check — changes the list and
   this proof no longer checks.
 -/
 namespace Tibc.Expect.Determinism
@@ -18,6 +20,7 @@ def expected : List String :=
    "modules/tibc/light-clients/09-eth/types/algorithm.go:generateDataset:time.Now",
    "modules/tibc/light-clients/09-eth/types/algorithm.go:generateDataset:time.Since",
    "modules/tibc/light-clients/09-eth/types/ethash.go:memoryMapAndGenerate:math/rand.Int",
+   "modules/tibc/light-clients/09-eth/types/header.go:verifyCascadingFields:io/ioutil.TempDir",
    "modules/tibc/light-clients/09-eth/types/sealer.go:Seal:crypto/rand.Int",
    "modules/tibc/light-clients/09-eth/types/sealer.go:Seal:crypto/rand.Reader",
    "modules/tibc/light-clients/09-eth/types/sealer.go:Seal:math/rand.New",
